@@ -303,7 +303,7 @@ fn ep_family_driver(ctx: &RunCtx, stats: &mut Stats, rep: &mut Reporter) {
 pub fn property() -> Property {
     Property {
         id: "C01",
-        rule: "Valid positions decoded from byte genomes by 12 constructive sources (sparse, dense, reference-legal playouts, \
+        rule: "Valid positions decoded from byte genomes by 17 constructive sources (sparse, dense, reference-legal playouts, \
                en-passant/castling/promotion/pin/mate/material families, many-queens, mutated corpus FENs; colour-mirrored half of \
                the time), plus exhaustive 3-man positions and an enumerated 5-man en-passant family, plus published perft counts. \
                Oracle: independent mailbox reference model (validated against published perft in the same run): legal::gen_* \
